@@ -74,6 +74,8 @@ XSet(kind) == IF kind = "escvar" THEN BadVarLetters ELSE BadEscLetters
 \* what stands before the command name: the label and, when the instruction has one, the output variable and '='
 \* (a quoted or escaped name is malformed in the command position behind `out =` as much as at the line start)
 NamePrefix(ins) == (IF ins.label = None THEN <<>> ELSE <<COLON>> \o ins.label \o <<SP>>) \o (IF ins.out = None THEN <<>> ELSE ins.out \o <<SP, EQ, SP>>)
+\* a pre-processor line may be indented like any other line: the filler character also selects the indentation
+LeadOf(x) == CASE x = SP -> <<SP, SP>> [] x = 120 -> <<TAB>> [] x = 48 -> <<SP, TAB>> [] OTHER -> <<>>
 Malformed(kind, ins, a, x) ==        \* ins has a command; a = an extra argument body; x = a filler character
   LET pre == Render(ins, Plain(ins)) IN
   CASE kind = "qend"   -> pre \o <<SP, QUOTE>> \o Esc(a, FALSE)
@@ -82,6 +84,6 @@ Malformed(kind, ins, a, x) ==        \* ins has a command; a = an extra argument
     [] kind = "bsend"  -> pre \o <<SP>> \o <<120, BS>>
     [] kind = "nameq"  -> NamePrefix(ins) \o <<QUOTE>> \o ins.cmd \o <<QUOTE>>
     [] kind = "namebs" -> NamePrefix(ins) \o ins.cmd \o <<BS, BS>> \o <<x>>
-    [] kind = "bang"   -> <<BANG>> \o Spaces(Len(a))
-    [] kind = "bangx"  -> <<BANG, 122, 122>> \o (IF a = <<>> THEN <<>> ELSE <<SP>> \o Form(a, TRUE, FALSE))
+    [] kind = "bang"   -> LeadOf(x) \o <<BANG>> \o Spaces(Len(a))
+    [] kind = "bangx"  -> LeadOf(x) \o <<BANG, 122, 122>> \o (IF a = <<>> THEN <<>> ELSE <<SP>> \o Form(a, TRUE, FALSE))
 =============================================================================
